@@ -53,7 +53,8 @@ def test(inp):
                     return f'{label}: {len(paths)} patches / {len(arr)} values for {len(present)} cells with geometry'
                 for k, n in enumerate(present):
                     want = numpy.asarray(polys[n].exterior.coords)
-                    if not numpy.allclose(paths[k].vertices[:len(want)], want):
+                    got_v = numpy.asarray(paths[k].vertices)[:len(want)]
+                    if got_v.shape != want.shape or not numpy.allclose(got_v, want):
                         return f'{label}: patch {k} is not the outline of cell {n}'
                     if arr[k] != n * 10 + 3:
                         return f'{label}: patch {k} shows cell {n} but carries the value of cell {(arr[k] - 3) / 10}'
